@@ -284,10 +284,13 @@ func (c *Ctx) genC03() {
 					if audv != "n" && c.quick() && c.chance(0.6) {
 						continue
 					}
-					for _, urlEq := range []bool{true, false} {
+					for k, urlEq := range []bool{true, false, true, false} {
 						cfg := baseCfg()
 						cfg.EntityID = eid
 						cfg.AudV = audv
+						// the other configuration switches of the SP must not matter to these checks
+						cfg.AllowIDP = k >= 2
+						c.count("c03-allow-idp-initiated", fmt.Sprint(cfg.AllowIDP))
 						r := baseResp(cfg, now)
 						r.Sig = signed
 						if signed == "idp" && c.chance(0.5) {
